@@ -514,6 +514,17 @@ func c03Check(c *Ctx, cs c03Case, full bool) (nontrivial bool) {
 		return nontrivial
 	}
 
+	// --- measured: the real result is a fixed point of the MODEL's Compact, id for id (what
+	// merge_result_is_fixpoint proves of the model's own results; ids are not promised, so a
+	// difference is not an alarm)
+	if !oracleFailed {
+		if m := c.Drv.Ask("compact.model " + Canon(out)); m == "ok "+Canon(out) {
+			c.Res.Hit("real-result-is-fixpoint-of-model-compact")
+		} else {
+			c.Res.Hit("real-result-not-a-fixpoint-of-model-compact")
+		}
+	}
+
 	// --- order independence (weights; the order-insensitive header fields)
 	if len(ps) > 1 && len(cs.Perm) == len(ps) {
 		qs := parseAll(c, cs.Profiles)
